@@ -326,6 +326,9 @@ def parse_transport_id(b):
 
 
 # ---------------------------------------------------------------------------
+IF_REPORTED = "?if reported"
+
+
 def subset_diff(exp, act, path=""):
     """paths where `act` does not contain `exp` (dict subset, lists equal
     length, bytes compared by content)."""
@@ -335,6 +338,13 @@ def subset_diff(exp, act, path=""):
             return [(path or "/", "expected dict, got %s" % type(act).__name__)]
         for k, v in exp.items():
             if isinstance(k, str) and k.startswith("_"):
+                continue
+            if k == IF_REPORTED:
+                # values of fields the library has no decoder for today: nothing is demanded, but a field it does report under
+                # one of these names has the value the device sent
+                for name, val in v.items():
+                    if name in act:
+                        out.extend(subset_diff(val, act[name], "%s/%s" % (path, name)))
                 continue
             kk = "<n>" if isinstance(k, int) else k
             if k not in act:
@@ -791,6 +801,19 @@ def gen_mode_page(rng, key=None, mode="rand"):
 def gen_opaque_mode_page(rng, long_ok):
     """a mode page the library has no field table for (caching, power condition, protocol specific ...): it has to be stepped
     over by its PAGE LENGTH; sub-page format pages may be longer than 255 bytes (e.g. SAS phy control and discover)"""
+    if rng.random() < 0.2:
+        # the power condition page as SPC-4 lays it out (1Ah, page length 26h). The library has no decoder for it, only an unused
+        # table of field names (scsi_enum_modesense.power_condition_bits): should a decoder appear, these are the names it reports
+        raw = bytearray(gen.byte_string(rng, 38))
+        raw[0] &= 0xC1
+        raw[1] &= 0x0F
+        raw[37] &= 0xFC
+        u32 = lambda o: int.from_bytes(raw[o:o + 4], "big")  # noqa: E731  (offsets behind the two-byte page header)
+        return {"ps": rng.getrandbits(1), "spf": 0, "page_code": 0x1A, "_raw": bytes(raw),
+                IF_REPORTED: {"pm_bg_precedence": raw[0] >> 6, "standby_y": raw[0] & 1, "idle_c": (raw[1] >> 3) & 1, "idle_b": (raw[1] >> 2) & 1,
+                              "idle_a": (raw[1] >> 1) & 1, "standby_z": raw[1] & 1, "idle_a_condition_timer": u32(2), "standby_z_condition_timer": u32(6),
+                              "idle_b_condition_timer": u32(10), "idle_c_condition_timer": u32(14), "standby_y_condition_timer": u32(18),
+                              "ccf_idle": raw[37] >> 6, "ccf_standby": (raw[37] >> 4) & 3, "ccf_stopped": (raw[37] >> 2) & 3}}
     if rng.random() < 0.5:
         code = rng.choice([0x01, 0x08, 0x1A, 0x1C, 0x18, 0x00 if False else 0x03])
         return {"ps": rng.getrandbits(1), "spf": 0, "page_code": code, "_raw": gen.byte_string(rng, rng.choice([2, 6, 10, 18, 22]))}
@@ -846,7 +869,11 @@ class ModeSense(Format):
         if self.ten and nbd and rng.getrandbits(1):
             v["longlba"] = 1
         v["_block_descriptors"] = [gen.byte_string(rng, 16 if v.get("longlba") else 8) for _ in range(nbd)]
-        if npages == 1:
+        if npages == 1 and mode == "rand" and self.opaque_pages and rng.random() < 0.1:
+            v["mode_pages"] = [gen_opaque_mode_page(rng, self.ten)]  # a page without a field table, asked for alone
+            while not self.ten and len(encode_mode_page(v["mode_pages"][0])) + 3 + 8 * nbd > 255:
+                v["mode_pages"] = [gen_opaque_mode_page(rng, False)]
+        elif npages == 1:
             v["mode_pages"] = [gen_mode_page(rng, key, pmode)]
         else:
             # what a device answers to page code 3Fh (return all pages): several pages, one after the other
@@ -1446,7 +1473,7 @@ def all_formats():
 FORMATS = {f.name: f for f in all_formats()}
 REFERENCE_GAPS = [
     "SOP TransportID routing-id position (library's position used; only size/protocol nibble checked)",
-    "fields of mode pages other than 02h, 0Ah, 0Ah/01h, 1Dh (the library has no tables for them; such pages are generated and must be stepped over)",
+    "fields of mode pages other than 02h, 0Ah, 0Ah/01h, 1Dh (the library has no tables for them; such pages are generated and must be stepped over; for the power condition page 1Ah the values are known under the names of the library's unused table and are compared if a decoder ever reports them)",
 ]
 
 
